@@ -235,9 +235,12 @@ theorem retag_datetime (c : Nat) (r : V) (h : ∃ c' d t, r = .datetime c' d t) 
 theorem timestampResult_inst (P : Prims) (hP : PrimsTyped P) (c : Nat) (x : V) :
     Ret (timestampResult P c x) (isInstT · (.cls .datetime c) = true) := by
   unfold timestampResult
-  apply Ret.bind'; intro y
-  apply Ret.bind; intro r hr
-  exact Ret.ok (retag_datetime c r (hP.utcFromTs y r hr))
+  apply Ret.bind'; intro fin
+  split
+  · exact Ret.perr _
+  · apply Ret.bind'; intro y
+    apply Ret.bind; intro r hr
+    exact Ret.ok (retag_datetime c r (hP.utcFromTs y r hr))
 
 theorem firstFormat_inst (P : Prims) (hP : PrimsTyped P) (s suffix : String) (isUtc : Bool) (c : Nat) :
     ∀ fmts, Ret (firstFormat P s suffix isUtc c fmts) (fun o => ∀ r, o = some r → isInstT r (.cls .datetime c) = true) := by
